@@ -27,6 +27,7 @@ RULE += (
          'Also: upper-case and further C-style conversions (X, E, G, '
          'F, o, i, c). ')
 RULE += ('Round 8: named formats comma-numeric / url-unquote(-plus) / url-quote-plus modelled; equal values of different type one after the other. ')
+RULE += ('Round 9: characters whose case mappings do not round-trip. ')
 ASSUMPTIONS = [
     'the statement does not say which fixed order the modifiers have: it is '
     'read off pairwise renderings and only its existence, acyclicity and '
